@@ -135,6 +135,47 @@ func c15(c *ctx) {
 		j.text = gram.PrintGrammar(g, gram.PrintOpts{Package: "g", State: corpus.StateBlock, V: vr, ActionCode: func(id int) string { return fmt.Sprintf("p.actN(%d)", id) }})
 		jobs = append(jobs, j)
 	}
+	// a rule referenced exactly 2^8 / 2^16 times (and one less, one more) from reachable rules — the blank-skipping
+	// rule of a large grammar — is used; the same number of references from unreachable rules only leaves it unused
+	if c.replay == "" {
+		counts := []int{255, 256, 257, 512}
+		if c.env.Tier == "thorough" {
+			counts = append(counts, 511, 513, 1024, 65535, 65536, 65537)
+		}
+		for _, k := range counts {
+			for _, reachable := range []bool{true, false} {
+				g := &gram.Grammar{}
+				per := 16
+				if k > 4096 {
+					per = 1024
+				}
+				var tops []*gram.Expr
+				left := k
+				for ri := 0; left > 0; ri++ {
+					m := min(per, left)
+					left -= m
+					var kids []*gram.Expr
+					for x := 0; x < m; x++ {
+						kids = append(kids, gram.Ref("Sp"), gram.Lit(string(rune('a'+x%26))))
+					}
+					name := fmt.Sprintf("W%d", ri)
+					g.Rules = append(g.Rules, &gram.Rule{Name: name, E: gram.Seq(kids...)})
+					tops = append(tops, gram.Ref(name))
+				}
+				first := &gram.Rule{Name: "R0", E: gram.Seq(gram.Lit("r"), gram.Un(gram.KNot, gram.Dot()))}
+				if reachable {
+					first.E = gram.Seq(gram.Alt(tops...), gram.Un(gram.KNot, gram.Dot()))
+				}
+				g.Rules = append([]*gram.Rule{first}, g.Rules...)
+				g.Rules = append(g.Rules, &gram.Rule{Name: "Sp", E: gram.Un(gram.KStar, gram.Lit(" "))})
+				g.Number()
+				tag := fmt.Sprintf("rule-referenced-%d-times-reachable=%v", k, reachable)
+				jobs = append(jobs, &job{id: len(jobs), g: g, tags: []string{tag},
+					text: gram.PrintGrammar(g, gram.PrintOpts{Package: "g", State: corpus.StateBlock})})
+				c.run.Count("grammars_with_a_rule_referenced_2^k_times", 1)
+			}
+		}
+	}
 	var wg sync.WaitGroup
 	sem := make(chan struct{}, 16)
 	type outT struct{ plain, strict cliResult }
